@@ -143,6 +143,38 @@ def step_exprs(c, o, max_steps):
     pot = "(mk_pot %s %s %s)" % (qlist(c["prec"]), qlist(c["mu"]), qlit(c.get("quartic", 0.0)))
     kind = 1 if c["kind"] == "exact_normal" else 0
     if c["kind"] == "microcanonical":
+        # the model's microcanonical step (model/Mclmc.v micro_step_inputs: the step the
+        # reversibility theorem is about) on the logged inputs: unit gradient directions and
+        # z = exp(-delta) at both ends (libm values, inputs), drift length h*sqrt(n)
+        nd = c["dim"]
+        if nd > 3:
+            # exact evaluation with 53-bit inputs is expensive: the model tie takes the small
+            # dimensions, the binary64 recomputation (oracle_micro) covers all of them
+            return exprs, meta
+        for d in o["draws"]:
+            if not d.get("init"):
+                continue
+            pts = {0: d["init"]}
+            n = 0
+            max_steps = 1
+            for lf in d["leapfrogs"]:
+                st_ = pts.get(lf["start_idx"])
+                pts[lf["idx"]] = lf
+                if lf["diverged"] or st_ is None or n >= max_steps:
+                    continue
+                h = c["step_size"] * (lf["idx"] - lf["start_idx"]) * lf.get("factor", 1.0)
+                g0 = [b2f(b) for b in st_["tg"]]
+                g1 = [b2f(b) for b in lf["tg"]]
+                gn0, gn1 = math.sqrt(sum(x * x for x in g0)), math.sqrt(sum(x * x for x in g1))
+                d0 = math.sqrt(nd) * h / 2 * gn0 / (nd - 1)
+                d1 = math.sqrt(nd) * h / 2 * gn1 / (nd - 1)
+                if max(abs(d0), abs(d1)) > 12.0 or gn0 == 0 or gn1 == 0:
+                    continue
+                exprs.append("eval_micro %s %s %s %s %s %s %s" % (
+                    qlist([x / gn0 for x in g0]), qlist([x / gn1 for x in g1]), qlit(math.exp(-d0)), qlit(math.exp(-d1)),
+                    qlit(h * math.sqrt(nd)), qlist([b2f(b) for b in st_["q"]]), qlist([b2f(b) for b in st_["v"]])))
+                meta.append((c, lf, st_))
+                n += 1
         return exprs, meta
     for kdraw, d in enumerate(o["draws"]):
         if not d.get("init"):
@@ -180,6 +212,18 @@ def close(model_pair, fbits, tol=1e-9):
 
 
 def compare_step(c, lf, m):
+    if c["kind"] == "microcanonical":
+        q1, p2 = m
+        nd = c["dim"]
+        gmax = max(math.sqrt(sum(b2f(x) ** 2 for x in lf["tg"])), 1e-300)
+        tol = 1e-9 * max(1.0, math.exp(2 * abs(c["step_size"] * lf.get("factor", 1.0)) * math.sqrt(nd) / 2 * gmax / (nd - 1)))
+        diffs = []
+        for name, mod, imp in (("whitened position", q1, lf["q"]), ("momentum", p2, lf["v"])):
+            for i, (a, b) in enumerate(zip(mod, imp)):
+                if not close(a, b, tol):
+                    diffs.append("%s[%d]: model (microcanonical step) %.12g implementation %.12g" % (name, i, a[0] / a[1], b2f(b)))
+                    break
+        return diffs
     q1, v2, x1, tg1, lp, kin = m
     diffs = []
     for name, mod, imp in (("whitened position", q1, lf["q"]), ("velocity", v2, lf["v"]),
@@ -331,7 +375,7 @@ def oracle_point(c, p, kdraw=0, init=None):
     return bad
 
 
-PRELUDE = ("From NutsV Require Import model.Leapfrog model.LeapfrogQc.\nFrom Coq Require Import ZArith QArith Qcanon List.\n"
+PRELUDE = ("From NutsV Require Import model.Leapfrog model.LeapfrogQc.\nFrom NutsV Require Import model.Mclmc.\nFrom Coq Require Import ZArith QArith Qcanon List.\n"
            "Import ListNotations.\n")
 
 
